@@ -11,6 +11,7 @@ import RkVerif.Gen.C05
 import Mathlib.Tactic.Tauto
 import Mathlib.Tactic.Positivity
 import Mathlib.Order.Fin.Basic
+import Mathlib.Tactic.Linarith
 
 open RkVerif RkVerif.Gen.C05
 
@@ -450,14 +451,123 @@ theorem rayBox2_iff (org dir : Vec2 α) (box : Box2 α) (tr : Range1 α) (t : α
     have e1 := ax.mpr ⟨a1, b1⟩; have e2 := ay.mpr ⟨a2, b2⟩
     exact ⟨⟨⟨e1.1, e2.1⟩, c1⟩, ⟨e1.2, e2.2⟩, c2⟩
 
-/-
-rayBox for axis-parallel rays (a direction component of magnitude < FLT_MIN): the code
-substitutes ±FLT_MIN for the component (`rcp_safe_small`), i.e. it intersects with a very slightly
-tilted ray; the exact "iff" above then holds for the tilted direction, not the given one. The
-statement for the given direction needs a bound on |t| (t·FLT_MIN negligible against the slab
-width) and is NOT proved here; it is only observed by the correspondence check.
--/
+/-! ### axis-parallel rays (a direction component of magnitude < FLT_MIN): the code substitutes ±1/FLT_MIN for the
+    reciprocal; the statement then needs a bound on |t| relative to the distance of the origin from the slab faces -/
+
+/-- what the slab test needs of one axis: either the direction component is not tiny, or (axis-parallel ray) the origin
+    is strictly inside the slab with `|t|·FLT_MIN` at most the distance to the nearer face, or strictly outside with
+    `|t|·FLT_MIN` below the distance to the slab. (Not covered: origin exactly in a face plane — see the witness below.) -/
+def AxisOK (lo up o d t : α) : Prop :=
+  fmin ≤ |d| ∨ (|d| < fmin ∧
+    ((lo < o ∧ o < up ∧ |t| * fmin ≤ o - lo ∧ |t| * fmin ≤ up - o) ∨ (o < lo ∧ |t| * fmin < lo - o) ∨
+     (up < o ∧ |t| * fmin < o - up)))
+
+/-- one axis of the slab test, with the reciprocal the code uses (`rcp_safe`), axis-parallel rays included -/
+theorem axis_iff_safe (lo up o d t : α) (hf : 0 < fmin) (h : lo ≤ up) (hc : AxisOK fmin lo up o d t) :
+    (min ((lo - o) * @rcp_safe_S α 𝔽 d) ((up - o) * @rcp_safe_S α 𝔽 d) ≤ t ∧
+      t ≤ max ((lo - o) * @rcp_safe_S α 𝔽 d) ((up - o) * @rcp_safe_S α 𝔽 d)) ↔
+      (lo ≤ o + t * d ∧ o + t * d ≤ up) := by
+  rcases hc with hbig | ⟨hsmall, hc⟩
+  · have dx : d ≠ 0 := by intro e; rw [e, abs_zero] at hbig; linarith
+    rw [rcp_safe_eq top fmin d hbig]
+    exact axis_iff lo up o d t dx h
+  · rw [rcp_safe_small top fmin d hsmall]
+    have htd : |t * d| ≤ |t| * fmin := by
+      rw [abs_mul]; exact mul_le_mul_of_nonneg_left (le_of_lt hsmall) (abs_nonneg t)
+    have htd1 := (abs_le.mp htd).1
+    have htd2 := (abs_le.mp htd).2
+    have htf : |t * fmin| = |t| * fmin := by rw [abs_mul, abs_of_pos hf]
+    have htf1 : -(|t| * fmin) ≤ t * fmin := by rw [← htf]; exact neg_abs_le _
+    have htf2 : t * fmin ≤ |t| * fmin := by rw [← htf]; exact le_abs_self _
+    split_ifs with hd0
+    · have e1 : (lo - o) * (1 / fmin) ≤ (up - o) * (1 / fmin) := by
+        apply mul_le_mul_of_nonneg_right (by linarith); positivity
+      rw [min_eq_left e1, max_eq_right e1, mul_one_div, mul_one_div, div_le_iff₀ hf, le_div_iff₀ hf]
+      rcases hc with ⟨a, b, c, e⟩ | ⟨a, c⟩ | ⟨a, c⟩
+      · exact ⟨fun _ => ⟨by linarith, by linarith⟩, fun _ => ⟨by linarith, by linarith⟩⟩
+      · exact ⟨fun ⟨_, q⟩ => absurd q (by intro q; linarith), fun ⟨_, q⟩ => absurd q (by intro q; linarith)⟩
+      · exact ⟨fun ⟨_, q⟩ => absurd q (by intro q; linarith), fun ⟨_, q⟩ => absurd q (by intro q; linarith)⟩
+    · have hneg : (-fmin) < 0 := by linarith
+      have e1 : (up - o) * (1 / (-fmin)) ≤ (lo - o) * (1 / (-fmin)) := by
+        apply mul_le_mul_of_nonpos_right (by linarith)
+        rw [one_div]; exact le_of_lt (inv_lt_zero.mpr hneg)
+      rw [min_eq_right e1, max_eq_left e1, mul_one_div, mul_one_div, div_le_iff_of_neg hneg, le_div_iff_of_neg hneg]
+      rcases hc with ⟨a, b, c, e⟩ | ⟨a, c⟩ | ⟨a, c⟩
+      · exact ⟨fun _ => ⟨by linarith, by linarith⟩, fun _ => ⟨by linarith, by linarith⟩⟩
+      · exact ⟨fun ⟨p, q⟩ => by exfalso; linarith, fun ⟨p, q⟩ => by exfalso; linarith⟩
+      · exact ⟨fun ⟨p, q⟩ => by exfalso; linarith, fun ⟨p, q⟩ => by exfalso; linarith⟩
+
+/-- **rayBox_iff, axis-parallel rays included (3D)**: for a box that is not inverted and every axis `AxisOK`
+    (regular direction component, or a component of magnitude below FLT_MIN with the origin strictly inside /
+    strictly outside the slab and `|t|·FLT_MIN` within the margin), the returned interval contains `t`
+    exactly when `org + t·dir` lies in the box and `t` in the given range. -/
+theorem rayBox3_iff_axis_parallel (org dir : Vec3 α) (box : Box3 α) (tr : Range1 α) (t : α) (hf : 0 < fmin)
+    (hx : AxisOK fmin box.lower.x box.upper.x org.x dir.x t) (hy : AxisOK fmin box.lower.y box.upper.y org.y dir.y t)
+    (hz : AxisOK fmin box.lower.z box.upper.z org.z dir.z t)
+    (hb : box.lower.x ≤ box.upper.x ∧ box.lower.y ≤ box.upper.y ∧ box.lower.z ≤ box.upper.z) :
+    @r1_contains α 𝔽 (@ray_box3 α 𝔽 org dir box tr) t = true ↔
+      (@b3_contains α 𝔽 box ⟨org.x + t * dir.x, org.y + t * dir.y, org.z + t * dir.z⟩ = true ∧
+       @r1_contains α 𝔽 tr t = true) := by
+  rw [r1_contains_iffF, r1_contains_iffF, b3_contains_iffF]
+  have ax := axis_iff_safe top fmin box.lower.x box.upper.x org.x dir.x t hf hb.1 hx
+  have ay := axis_iff_safe top fmin box.lower.y box.upper.y org.y dir.y t hf hb.2.1 hy
+  have az := axis_iff_safe top fmin box.lower.z box.upper.z org.z dir.z t hf hb.2.2 hz
+  simp only [ray_box3, intersectRayBox_Vec3_Vec3_Box3_Range1, rcp_safe_Vec3]
+  generalize @rcp_safe_S α 𝔽 dir.x = Rx at ax ⊢
+  generalize @rcp_safe_S α 𝔽 dir.y = Ry at ay ⊢
+  generalize @rcp_safe_S α 𝔽 dir.z = Rz at az ⊢
+  simp only [gen_simp, Vec3.le, max_le_iff, le_min_iff]
+  constructor
+  · rintro ⟨⟨⟨a1, a2⟩, a3, a4⟩, ⟨b1, b2⟩, b3, b4⟩
+    have e1 := ax.mp ⟨a1, b1⟩; have e2 := ay.mp ⟨a2, b2⟩; have e3 := az.mp ⟨a3, b3⟩
+    exact ⟨⟨⟨e1.1, e2.1, e3.1⟩, e1.2, e2.2, e3.2⟩, a4, b4⟩
+  · rintro ⟨⟨⟨a1, a2, a3⟩, b1, b2, b3⟩, c1, c2⟩
+    have e1 := ax.mpr ⟨a1, b1⟩; have e2 := ay.mpr ⟨a2, b2⟩; have e3 := az.mpr ⟨a3, b3⟩
+    exact ⟨⟨⟨e1.1, e2.1⟩, e3.1, c1⟩, ⟨e1.2, e2.2⟩, e3.2, c2⟩
+
+/-- the same in 2D -/
+theorem rayBox2_iff_axis_parallel (org dir : Vec2 α) (box : Box2 α) (tr : Range1 α) (t : α) (hf : 0 < fmin)
+    (hx : AxisOK fmin box.lower.x box.upper.x org.x dir.x t) (hy : AxisOK fmin box.lower.y box.upper.y org.y dir.y t)
+    (hb : box.lower.x ≤ box.upper.x ∧ box.lower.y ≤ box.upper.y) :
+    @r1_contains α 𝔽 (@ray_box2 α 𝔽 org dir box tr) t = true ↔
+      (@b2_contains α 𝔽 box ⟨org.x + t * dir.x, org.y + t * dir.y⟩ = true ∧
+       @r1_contains α 𝔽 tr t = true) := by
+  rw [r1_contains_iffF, r1_contains_iffF, b2_contains_iffF]
+  have ax := axis_iff_safe top fmin box.lower.x box.upper.x org.x dir.x t hf hb.1 hx
+  have ay := axis_iff_safe top fmin box.lower.y box.upper.y org.y dir.y t hf hb.2 hy
+  simp only [ray_box2, intersectRayBox_Vec2_Vec2_Box2_Range1, rcp_safe_Vec2]
+  generalize @rcp_safe_S α 𝔽 dir.x = Rx at ax ⊢
+  generalize @rcp_safe_S α 𝔽 dir.y = Ry at ay ⊢
+  simp only [gen_simp, Vec2.le, max_le_iff, le_min_iff]
+  constructor
+  · rintro ⟨⟨⟨a1, a2⟩, a4⟩, ⟨b1, b2⟩, b4⟩
+    have e1 := ax.mp ⟨a1, b1⟩; have e2 := ay.mp ⟨a2, b2⟩
+    exact ⟨⟨⟨e1.1, e2.1⟩, e1.2, e2.2⟩, a4, b4⟩
+  · rintro ⟨⟨⟨a1, a2⟩, b1, b2⟩, c1, c2⟩
+    have e1 := ax.mpr ⟨a1, b1⟩; have e2 := ay.mpr ⟨a2, b2⟩
+    exact ⟨⟨⟨e1.1, e2.1⟩, c1⟩, ⟨e1.2, e2.2⟩, c2⟩
 end field
+
+/-- **The excluded case is a genuine failure of the full statement (known finding C05-raybox-axis-parallel-on-face).**
+    Unit box, ray along +z starting at (1, 1/2, 0) — in the plane of the upper x face, so every point (1, 1/2, t),
+    0 ≤ t ≤ 1, is inside the (closed) box — but the x slab computed with `rcp_safe(0) = 1/FLT_MIN` is
+    `[-1/FLT_MIN, 0]`, so the returned interval is `[0, 0]` and t = 1/2 is not covered. -/
+theorem rayBox_axis_parallel_on_face_witness :
+    let F : CNum ℚ := CNum.ofField ℚ 1000000 (1 / 1024)
+    @r1_contains ℚ F (@ray_box3 ℚ F ⟨1, 1/2, 0⟩ ⟨0, 0, 1⟩ ⟨⟨0, 0, 0⟩, ⟨1, 1, 1⟩⟩ ⟨0, 10⟩) (1/2) = false ∧
+    @b3_contains ℚ F ⟨⟨0, 0, 0⟩, ⟨1, 1, 1⟩⟩ ⟨1 + (1/2) * 0, 1/2 + (1/2) * 0, 0 + (1/2) * 1⟩ = true := by
+  intro F
+  constructor
+  · rw [Bool.eq_false_iff, Ne, r1_contains_iffF]
+    simp only [gen_simp, ofField_ofScientific, ofField_abs, ofField_fltMin, ofField_ofNat]
+    norm_num
+  · rw [b3_contains_iffF]
+    simp only [Vec3.le]
+    norm_num
+
+/-- the hypotheses of the axis-parallel theorem are satisfiable: the same ray moved strictly inside (x = 3/4) -/
+example : AxisOK (1 / 1024 : ℚ) 0 1 (3/4) 0 (1/2) := by
+  right; refine ⟨by norm_num, Or.inl ⟨by norm_num, by norm_num, by norm_num, by norm_num⟩⟩
 
 /-! ## the full "intersection empty ⇔ disjoint" statement is false of the code (known finding) -/
 section witness
